@@ -302,6 +302,13 @@ def run(ctx, rep):
     rep.instances[before:] = [i for i in rep.instances[before:] if i["rule"] in ("R3.3", "R4.1")]
     for r_ in ("R3.4", "R3.5"):
         rep.floors.pop(r_, None)
+    # a text field occupies exactly the width the specification gives it - otherwise every later field sits at the wrong offset:
+    # the shared text writer's exact-width clause (R11.3, shared with C11)
+    from props import c11
+    before = len(rep.instances)
+    c11.length_domain(ctx, rep)
+    rep.instances[before:] = [i for i in rep.instances[before:] if i["rule"] == "R11.3"]
+    rep.floors.pop("R11.4", None)
 
 
 def hand_tables(ctx, rep):
